@@ -20,7 +20,7 @@ if os.path.abspath(REPO) != "/repo":
 else:
     HARNESS = os.path.join(VERIF, "harness")
     TARGET = os.environ.get("VERIF_TARGET_DIR", os.path.join(VERIF, ".target"))
-GEN = os.path.join(VERIF, "lean", "DicomModel", "Gen")
+GEN = os.path.join(os.environ.get("VERIF_LEAN_DIR") or os.path.join(VERIF, "lean"), "DicomModel", "Gen")
 
 
 def die(msg):
